@@ -44,6 +44,7 @@ NFUNC = 16
 SINGLE_BUMP = True
 ARGSPEC = {1: ["arg1"], 2: ["arg1/i32"], 3: ["arg1", "arg2"], 4: ["arg1/i32", "arg2/i32"], 9: ["arg1/i16"]}
 RETSPEC = {5: "retval", 6: "retval/i32", 3: "retval"}
+NOTRACE = (12, 13)          # UFTRACE_FILTER=!f12;!f13 (-N): these calls sit on the return stack with MCOUNT_FL_NORECORD
 
 
 def spec_size(s):
@@ -69,7 +70,7 @@ def ret_payload(k, rv):
 
 
 def prod_env(with_args):
-    env = {}
+    env = {"UFTRACE_FILTER": ";".join("!f%d" % k for k in NOTRACE)}
     if with_args:
         env["UFTRACE_ARGUMENT"] = ";".join("f%d@%s" % (k, ",".join(v)) for k, v in sorted(ARGSPEC.items()))
         env["UFTRACE_RETVAL"] = ";".join("f%d@%s" % (k, v) for k, v in sorted(RETSPEC.items()))
@@ -84,16 +85,21 @@ def gen_case(rng, boundary=None):
     ops, stack, t = [], [], 1000
     for _ in range(nops):
         t += rng.randrange(1, 50)
-        if stack and (rng.random() < 0.45 or len(stack) >= 7):
+        if stack and (rng.random() < 0.45 or len(stack) >= 7 or stack[-1] in NOTRACE):
+            # (nothing is called from inside a -N function: such calls get no return-stack frame at all)
+            if stack[-1] in NOTRACE and rng.random() < 0.25 and _ == nops - 1:
+                break               # the history ends inside the -N function: it is the innermost frame when the process dies
             k = stack.pop()
             ops.append(("X", t, rng.randrange(1 << 40)))
         else:
-            k = rng.randrange(NFUNC) if with_args else rng.choice([0, 7, 8, 10, 11])
+            k = rng.randrange(NFUNC) if with_args else rng.choice([0, 7, 8, 10, 11, 12, 12])
             stack.append(k)
             ops.append(("E", k, t, rng.randrange(1 << 48), rng.randrange(1 << 32)))
     mode = rng.choice(["kill", "kill", "kill", "kill", "segv", "abrt", "exit", "end"])
     if boundary:
         mode = boundary
+    if mode == "kill" and len(ops) < 2:
+        mode = "segv"          # the first hook call sets the thread up: it is never the kill op
     sync = [rng.random() < 0.3 for _ in ops]
     e = rng.randrange(0, 9) if mode == "kill" else None
     return {"cap": cap, "ops": ops, "sync": sync, "mode": mode, "e": e, "args": with_args}
@@ -170,7 +176,7 @@ def coq_ops(c, f0):
             k = o[1]
             stack.append(k)
             pl = arg_payload(k, o[3], o[4]) if c["args"] else b""
-            out.append("OEnter %d %d %s" % (f0 + 256 * k + 4, o[2], coq_bytes(pl)))
+            out.append("OEnter %d %d %s %s" % (f0 + 256 * k + 4, o[2], coq_bytes(pl), coq.coq_bool(k in NOTRACE)))
         else:
             k = stack.pop()
             pl = ret_payload(k, o[2]) if c["args"] else b""
@@ -260,6 +266,16 @@ def store_cases(ctx):
         c["sync"] = [False, False, e % 2 == 1, False]
         c["e"] = e
         cases.append(c)
+    # the innermost frame is a -N function (MCOUNT_FL_NORECORD), its callers' ENTRYs are not written yet
+    for mode in ("segv", "abrt", "kill", "exit"):
+        for args in (False, True):
+            ops = [("E", 0, 1010, 1, 2), ("E", 1 if args else 7, 1020, 3, 4), ("E", 3 if args else 8, 1030, 5, 6),
+                   ("E", 12, 1040, 7, 8)]
+            cases.append({"cap": 4080, "args": args, "mode": mode, "ops": ops, "sync": [False] * 4,
+                          "e": 0 if mode == "kill" else None, "directed": "norecord-innermost"})
+            ops2 = [("E", 0, 1010, 1, 2), ("E", 10, 1020, 0, 0), ("X", 1030, 0)] + [(o[0], o[1], o[2] + 100, o[3], o[4]) for o in ops[1:]]
+            cases.append({"cap": 64, "args": args, "mode": mode, "ops": ops2, "sync": [False, False, True, False, False, False],
+                          "e": 0 if mode == "kill" else None, "directed": "norecord-innermost"})
     cases += shrink_cases()
     for _ in range(ctx.n(70, 1200)):
         cases.append(gen_case(rng))
@@ -409,6 +425,14 @@ def run_live_case(exe, d, rng, MC, witness=False):
             k = h.cmd("CHECK").split()
             evs.append(("check", sorted(dead | zombie), int(k[1]), int(k[2]), int(k[3]), ents(k[4:])))
 
+        def shm(kind, sid, tid, idx):
+            h.cmd("%s %d %d %d" % (kind, sid, tid, idx))
+            evs.append(("shm", kind, sid, tid, idx))
+
+        def shl():
+            k = h.cmd("SHL").split()
+            evs.append(("shl", ents(k[1:])))
+
         def drop(mode):
             k = h.cmd("DROP %d" % mode).split()
             evs.append(("drop", mode, int(k[1]), ents(k[2:])))
@@ -418,6 +442,22 @@ def run_live_case(exe, d, rng, MC, witness=False):
             msg("FORK_START", p0, 0)
             msg("TASK_END", p0, p0)
         else:
+            if rng.random() < 0.5:
+                # exec in a task: the old image's buffer is still announced (no REC_END), the new image announces
+                # its first buffer, then TASK_START for the known tid: flush_old_shmem must take the OLD buffer
+                t = rng.choice(kids)
+                msg("TASK_START", p0, t)
+                sid1, sid2 = rng.randrange(1, 1 << 30), rng.randrange(1, 1 << 30)
+                shm("RSTART", sid1, t, 0)
+                if rng.random() < 0.5:
+                    shm("REND", sid1, t, 0)
+                    shm("RSTART", sid1, t, 1)
+                if rng.random() < 0.5:
+                    shm("RSTART", sid1, rng.choice(kids), 0)        # another thread's buffer
+                shm("RSTART", sid2, t, 0)
+                shl()
+                msg("TASK_START", p0, t)
+                shl()
             for _ in range(rng.randrange(6, 26)):
                 x = rng.random()
                 anyp = rng.choice(kids + ghost)
@@ -475,6 +515,11 @@ def coq_lev(e):
         return "LMsg (%s)" % m
     if e[0] == "sig":
         return "LSig %s" % z(e[1])
+    if e[0] == "shm":
+        _, kind, sid, tid, idx = e
+        return "LMsg (%s %s %s %s)" % ("RecStart" if kind == "RSTART" else "RecEnd", z(sid), z(tid), z(idx))
+    if e[0] == "shl":
+        return "LShm [%s]" % "; ".join("(%s, %s, %s)" % (z(a), z(b), z(c)) for a, b, c in e[1])
     if e[0] == "drop":
         _, mode, ret, ents = e
         return "LDrop %s %s [%s]" % (coq.coq_bool(mode == 1), coq.coq_bool(ret),
@@ -511,6 +556,8 @@ def run_live(ctx, rec_exe):
             continue
         hists.append(evs)
         tags = ["live:fork-start-without-fork-end,all-dead(former-fork-window)"] if witness else ["live:history"]
+        if any(e[0] == "shl" for e in evs):
+            tags.append("live:exec(two-sessions-in-one-tid,flush_old_shmem)")
         if any(e[0] == "drop" and e[1] == 1 and e[2] == 1 for e in evs):
             tags.append("live:pending-fork-dropped")
         if any(e[0] == "drop" and e[1] != 1 for e in evs):
@@ -565,6 +612,7 @@ struct tlog { volatile unsigned tid; volatile unsigned n; volatile unsigned ev[M
 static struct tlog *L;
 static __thread struct tlog *my;
 static int kill_th = -1, kill_at = -1, how = 9;
+static char *self_argv[6];
 NOI static void die(void)
 {
 	switch (how) {
@@ -572,7 +620,7 @@ NOI static void die(void)
 	case 1: *(volatile int *)0 = 1; break;
 	case 2: abort(); break;
 	case 3: _exit(3); break;
-	case 4: { char *a[] = { "/bin/true", 0 }; execv(a[0], a); } break;
+	case 4: execv(self_argv[0], self_argv); break;        /* the same traced program, in the same task */
 	case 5: exit(4); break;
 	}
 }
@@ -606,6 +654,13 @@ int main(int argc, char **argv)
 	if (fd < 0 || ftruncate(fd, sizeof(struct tlog) * (NTH + 1)) < 0) return 9;
 	L = mmap(0, sizeof(struct tlog) * (NTH + 1), PROT_READ | PROT_WRITE, MAP_SHARED, fd, 0);
 	kill_th = atoi(argv[2]); kill_at = atoi(argv[3]); how = atoi(argv[4]);
+	if (argc >= 9) {	/* second stage after execv: <log2> <th2> <at2> <how2> */
+		self_argv[0] = argv[0]; self_argv[1] = argv[5]; self_argv[2] = argv[6];
+		self_argv[3] = argv[7]; self_argv[4] = argv[8]; self_argv[5] = 0;
+	}
+	else {
+		self_argv[0] = "/bin/true"; self_argv[1] = 0;
+	}
 	attach(0);
 	for (i = 1; i <= NTH; i++) pthread_create(&th[i], 0, worker, (void *)i);
 	root(0);
@@ -631,7 +686,7 @@ def gen_program(rng, nth, big):
                     % (k, k, rep, calls, k))
     roots = ["f%d(%d);" % (rng.randrange(0, max(1, nf // 2)), rng.randrange(3, 7) if big else rng.randrange(2, 4))
              for _ in range(rng.randrange(1, 4))]
-    body.append("static void root(long i) { %s if (i & 1) f%d(2); }" % (" ".join(roots), rng.randrange(nf)))
+    body.append("NOI static void root(long i) { %s if (i & 1) f%d(2); }" % (" ".join(roots), rng.randrange(nf)))
     body.append(PROG_TAIL)
     return nf, "\n".join(body)
 
@@ -693,6 +748,9 @@ def e2e_run(uft, objdir, prog, work, idx, case):
     data, logf = os.path.join(d, "data"), os.path.join(d, "log")
     cmd = ["timeout", "-s", "KILL", "20", uft, "record", "--no-pager", "--no-event", "--libmcount-path=" + objdir,
            "-d", data] + case["opts"] + [prog["exe"], logf, str(case["th"]), str(case["at"]), str(HOWS[case["how"]])]
+    st2 = case.get("stage2")
+    if st2:
+        cmd += [logf + "2", str(st2["th"]), str(st2["at"]), str(HOWS[st2["how"]])]
     t0 = time.time()
     p = subprocess.run(cmd, capture_output=True, text=True, cwd=d)
     ob = {"rc": p.returncode, "wall": time.time() - t0, "stderr": p.stderr[-300:]}
@@ -704,8 +762,9 @@ def e2e_run(uft, objdir, prog, work, idx, case):
         return ob
     ob["files"] = sorted(os.listdir(data)) if os.path.isdir(data) else []
     ob["logs"] = read_log(logf, prog["nth"]) if os.path.exists(logf) else []
+    ob["logs2"] = read_log(logf + "2", prog["nth"]) if (st2 and os.path.exists(logf + "2")) else []
     ob["dat"] = {}
-    for tid, _ in ob["logs"]:
+    for tid, _ in ob["logs"] + ob["logs2"]:
         f = os.path.join(data, "%d.dat" % tid)
         ob["dat"][tid] = open(f, "rb").read() if (tid and os.path.exists(f)) else b""
     ob["analysis"] = {}
@@ -717,10 +776,13 @@ def e2e_run(uft, objdir, prog, work, idx, case):
     return ob
 
 
-def coq_ecase(ftab, log, dat, crash, nest):
-    return ("{| e_ftab := [%s]%%N; e_log := [%s]%%N; e_bytes := %s; e_crash := %s; e_nest := %s |}" % (
-        "; ".join("(%d, %d)" % t for t in ftab), "; ".join("(%d, %d)" % e for e in log),
-        coq_bytes(dat), coq.coq_bool(crash), coq.coq_bool(nest)))
+def coq_ecase(ftab, nt, maxd, log1, log2, dat, crash1, crash2, nest):
+    def evs(l):
+        return "[" + "; ".join("(%d, %d)" % e for e in l) + "]%N"
+    return ("{| e_ftab := [%s]%%N; e_nt := %s; e_maxd := %d; e_log1 := %s; e_log2 := %s; e_bytes := %s; "
+            "e_crash1 := %s; e_crash2 := %s; e_nest := %s |}" % (
+                "; ".join("(%d, %d)" % t for t in ftab), coq_bytes(nt), maxd, evs(log1), evs(log2),
+                coq_bytes(dat), coq.coq_bool(crash1), coq.coq_bool(crash2), coq.coq_bool(nest)))
 
 
 def run_e2e(ctx, objdir):
@@ -759,7 +821,27 @@ def run_e2e(ctx, objdir):
                 th, total = 0, len(pr["full"][0][1])
             at = rng.choice([0, 1, total - 1, total - 2, rng.randrange(total), rng.randrange(total)]) % max(total, 1)
             opts = rng.choice([[], [], ["--no-libcall"], ["-b", "4k"], ["-b", "4k", "--no-libcall"]])
-            case = {"prog": pr["id"], "how": how, "th": th, "at": at, "opts": list(opts)}
+            case = {"prog": pr["id"], "how": how, "th": th, "at": at, "opts": list(opts), "nt": [], "maxd": 1 << 20}
+            fl = rng.random()
+            if how in ("segv", "abort", "exit", "sigkill") and fl < 0.7:
+                # record-time filters: the innermost return-stack frame at the crash may be a filtered-out one
+                # (the -N function itself; abort()/kill() called through the PLT beyond the -D limit)
+                if fl < 0.4:
+                    k = pr["full"][th][1][at][1]              # the function that is logging when the process dies
+                    case["nt"] = [k]
+                    case["opts"] = [o for o in opts if o != "--no-libcall"] + ["-N", "f%d" % k]
+                else:
+                    case["maxd"] = rng.randrange(1, 4)
+                    case["opts"] = [o for o in opts if o != "--no-libcall"] + ["-D", str(case["maxd"])]
+            if how == "execv":
+                # the program exec()s itself (same task, second session); the second image runs to the end, is
+                # killed or crashes
+                h2 = rng.choice(["none", "segv", "sigkill", "abort", "none"])
+                case["th"] = 0
+                t0n = len(pr["full"][0][1])
+                case["at"] = rng.randrange(t0n) if t0n else 0
+                case["stage2"] = {"how": h2, "th": 0 if h2 != "none" else -1,
+                                  "at": rng.randrange(t0n) if (t0n and h2 != "none") else -1}
             if how == "finish":
                 k = pr["full"][th][1][at][1]
                 case.update({"how": "none", "finish": k, "th": -1, "at": -1, "opts": opts + ["-T", "f%d@finish" % k]})
@@ -812,13 +894,32 @@ def e2e_judge(ctx, progs, cases, obs):
                 viol("reader", "C04 violated: `uftrace %s` rejects the directory left after the tracee %s (rc=%d): %s"
                      % (cmdn, how, rc, err), rj)
         nrec = 0
+        st2 = case.get("stage2")
+        per_tid = {}
         for ti, (tid, log) in enumerate(ob["logs"]):
-            ref = pr["full"][ti][1] if how in ("finish",) else log
-            crash = how in ("segv", "abort") and ti == case["th"]
+            if tid:
+                per_tid.setdefault(tid, {"l1": [], "l2": [], "ti": ti, "c1": False, "c2": False})
+                per_tid[tid]["l1"] = pr["full"][ti][1] if how == "finish" else log
+                per_tid[tid]["c1"] = how in ("segv", "abort") and ti == case["th"]
+        for ti, (tid, log) in enumerate(ob.get("logs2", [])):
+            if tid:
+                per_tid.setdefault(tid, {"l1": [], "l2": [], "ti": ti, "c1": False, "c2": False})
+                per_tid[tid]["l2"] = log
+                per_tid[tid]["c2"] = st2["how"] in ("segv", "abort") and ti == st2["th"]
+        for tid, pt in sorted(per_tid.items()):
             dat = ob["dat"].get(tid, b"")
             nrec += len(dat) // 16
-            ecases.append(coq_ecase(pr["ftab"], ref, dat, crash, how != "execv"))
-            owner.append((ci, ti, tid))
+            ecases.append(coq_ecase(pr["ftab"], case.get("nt", []), case.get("maxd", 1 << 20), pt["l1"], pt["l2"], dat,
+                                    pt["c1"], pt["c2"], how != "execv"))
+            owner.append((ci, pt["ti"], tid))
+        if st2:
+            tags.append("e2e:exec-self,second-image-" + st2["how"])
+            if any(pt["l1"] and pt["l2"] for pt in per_tid.values()):
+                tags.append("e2e:two-sessions-in-one-tid")
+        if case.get("nt"):
+            tags.append("e2e:dies-inside-N-function")
+        if case.get("maxd", 1 << 20) < 100:
+            tags.append("e2e:depth-limit")
         if nrec > 254:
             tags.append("e2e:buffer-switched")
         if ob.get("shm_left"):
@@ -839,7 +940,9 @@ def e2e_judge(ctx, progs, cases, obs):
                       "forming a prefix of what the thread executed%s" % (
                           tid, ti, how, " / misses open calls of the crashing thread" if how in ("segv", "abort") else ""),
                       {"line": "e2e", "case": case, "program": progs[case["prog"]]["src"], "thread": ti,
-                       "log": ob["logs"][ti][1][-40:], "dat_tail_hex": ob["dat"][tid][-160:].hex()}, True)
+                       "log": (ob["logs"][ti][1] if ti < len(ob["logs"]) else [])[-40:],
+                       "log_second_image": (ob["logs2"][ti][1] if ti < len(ob.get("logs2", [])) else [])[-40:],
+                       "dat_tail_hex": ob["dat"][tid][-160:].hex()}, True)
 
 
 FORK_FAIL_PROG = r"""
@@ -1013,9 +1116,12 @@ def replay(ctx, obj):
         pr = build_prog(work, 0, src, nth, nf)
         case["prog"] = 0
         del E2E_TIMEOUTS[:]
-        ob = e2e_run(os.path.join(objdir, "uftrace"), objdir, pr, work, 0, case)
-        ctx.log("replayed e2e case:", case, "rc=%s files=%s" % (ob.get("rc"), ob.get("files")))
-        e2e_judge(ctx, [pr], [case], [ob])
+        for attempt in range(3):            # (scheduling of recorder vs tracee differs from run to run)
+            ob = e2e_run(os.path.join(objdir, "uftrace"), objdir, pr, work, attempt, case)
+            ctx.log("replayed e2e case:", case, "rc=%s files=%s" % (ob.get("rc"), ob.get("files")))
+            e2e_judge(ctx, [pr], [case], [ob])
+            if ctx.violations:
+                break
     elif obj.get("line") in ("forkfail", "forkwin"):
         fw = {}
         fork_fail_e2e(ctx, objdir, fw)
@@ -1026,7 +1132,8 @@ def replay(ctx, obj):
         h = obj.get("history") or obj.get("first_disagreement")
         hist = [tuple(tuple(x) if isinstance(x, list) and e[0] != "check" else x for x in e) for e in h]
         hist = [(e[0], e[1], e[2], e[3], e[4], [tuple(t) for t in e[5]]) if e[0] == "check" else
-                (e[0], e[1], e[2], [tuple(t) for t in e[3]]) if e[0] == "drop" else tuple(e) for e in hist]
+                (e[0], e[1], e[2], [tuple(t) for t in e[3]]) if e[0] == "drop" else
+                (e[0], [tuple(t) for t in e[1]]) if e[0] == "shl" else tuple(e) for e in hist]
         res = eval_live(ctx, [hist], "replay_live")
         ctx.case(key="replay")
         if res is not None:
